@@ -70,6 +70,10 @@ REQUIRE = {
         "eval:apply_target_encoding:dec-glyph": 5_000,
         "eval:apply_target_encoding:bytes-shift": 300,
         "eval:str-bytes-agree": 80_000,
+        "directed:subranges:move_next_char": 1_000,
+        "directed:subranges:move_prev_char": 1_000,
+        "directed:subranges:start-inside-char,end-on-boundary": 300,
+        "directed:subranges:start-on-boundary,end-inside-char": 300,
         "long_inputs:len=1000": 55,
         "long_inputs:len=300": 55,
         "long_inputs:len=500": 55,
@@ -143,6 +147,10 @@ REQUIRE = {
         "eval:apply_target_encoding:dec-glyph": 20_000,
         "eval:apply_target_encoding:bytes-shift": 300,
         "eval:str-bytes-agree": 1_000_000,
+        "directed:subranges:move_next_char": 1_000,
+        "directed:subranges:move_prev_char": 1_000,
+        "directed:subranges:start-inside-char,end-on-boundary": 300,
+        "directed:subranges:start-on-boundary,end-inside-char": 300,
         "long_inputs:len=1000": 55,
         "long_inputs:len=300": 55,
         "long_inputs:len=500": 55,
@@ -936,6 +944,78 @@ def dec_texts():
             yield g1 + g2
 
 
+# ------------------------------------------------------------------ directed core: every sub-range for next / prev
+# Never skipped, never cut by the budget, run by every shard (a few thousand calls).  move_next_char / move_prev_char are
+# called for ALL 0 <= start < end <= len of a fixed pool, including ranges that start or end INSIDE a character.
+#   range oracle (hard, any range):  start < next <= end ;  start <= prev < end
+#   model (ranges whose bytes, read on their own, parse like the same span of the whole text -- in particular every
+#   boundary-to-boundary range): next == first character boundary of text[start:end], prev == last one.
+SUBRANGE_POOL = {
+    "utf-8": [
+        "a\u00e9b".encode(), "a\u6f22b".encode(), "x\U0001f600y".encode(), "\u00e9\u6f22".encode(), "a\u0301\u6f22".encode(),
+        b"a\x80b", b"\xe3\x81", b"\xc3\xa9\xc3", "a\u6f22\u0301b", "\U0001f600\u00e9",
+    ],
+    "gbk": [b"a\xa4\xa2b", b"\xa4\xa2\xa4\xa2", b"\x81\x40a", b"\xa4\xa2@\xa4\xa2", b"a\x81\x80b", "a\u6f22b"],
+    "euc-jp": [b"\xa4\xa2a\xa4\xa2", "\u6f22a"],
+    "iso-8859-1": [b"a\xe9\xffb", b"\xa4\xa2\x81", "a\u00e9\u6f22"],
+    "ascii": [b"ab\xe9", "ab"],
+}  # fmt: skip
+
+
+def subrange_core(ctx, api):
+    S = api.S
+    for enc, pool in SUBRANGE_POOL.items():
+        mode = W.mode_of_encoding(enc)
+        with Encoding(api, enc):
+            for text in pool:
+                kind = "bytes" if isinstance(text, bytes) else "str"
+                whole = mcells(text, mode, api.lenient)
+                wb = [0]
+                for ch, _w, _c in whole:
+                    wb.append(wb[-1] + len(ch))
+                wbset = set(wb)
+                n = len(text)
+                for start in range(n):
+                    for end in range(start + 1, n + 1):
+                        where = f"start-{'on-boundary' if start in wbset else 'inside-char'},end-{'on-boundary' if end in wbset else 'inside-char'}"
+                        sub = mcells(text[start:end], mode, api.lenient)
+                        sb = [start]
+                        for ch, _w, _c in sub:
+                            sb.append(sb[-1] + len(ch))
+                        # the slice read alone agrees with the whole text on this span (always true boundary-to-boundary)
+                        same_parse = [b for b in wb if start <= b <= end] == sb
+                        clean = same_parse and not any(c in MALFORMED for _ch, _w, c in sub)
+                        wit = {"kind": "subrange", "enc": enc, "text": text, "start": start, "end": end}
+                        for fname, f, lo_ok, exp in (
+                            ("move_next_char", S.move_next_char, lambda r: start < r <= end, sb[1]),
+                            ("move_prev_char", S.move_prev_char, lambda r: start <= r < end, sb[-2]),
+                        ):
+                            ctx.count(f"directed:subranges:{fname}")
+                            ctx.count(f"directed:subranges:{where}")
+                            CALLS[fname] += 1
+                            try:
+                                got = f(text, start, end)
+                            except Exception as e:  # noqa: BLE001
+                                ctx.violation(f"C11|{mode}|{kind}|{fname}|raise:{type(e).__name__}|subrange:{where}", f"[{enc}] {fname}({text!r},{start},{end}) raised {type(e).__name__}: {e}", wit)
+                                continue
+                            if not isinstance(got, int) or not lo_ok(got):
+                                ctx.violation(
+                                    f"C11|{mode}|{kind}|{fname}|outside-given-range|subrange:{where}",
+                                    f"[{enc}] {fname}({text!r},{start},{end}) = {got!r}: not inside the range it was given",
+                                    wit,
+                                )
+                            elif clean and got != exp:
+                                ctx.count("directed:subranges:model-compared")
+                                ctx.violation(
+                                    f"C11|{mode}|{kind}|{fname}|not-the-model-boundary|subrange:{where}",
+                                    f"[{enc}] {fname}({text!r},{start},{end}) = {got!r}, model {exp}",
+                                    wit,
+                                )
+                            elif clean:
+                                ctx.count("directed:subranges:model-compared")
+                ctx.case(("subrange", enc, text if isinstance(text, str) else text.hex()))
+
+
 # ------------------------------------------------------------------ long inputs
 # The short-text phases ask every question about <= 7 characters.  Here the same questions are asked of texts of
 # 300 / 500 / 1000 / 5000 characters per class, at both ends and in the middle (the model is linear, so this is cheap).
@@ -1452,6 +1532,9 @@ def run(ctx):
     wide_encs = WIDE_ENCODINGS[ctx.tier]
     incomplete = []
 
+    # ---------------- phase 0: directed core (every shard, never cut)
+    subrange_core(ctx, api)
+
     # ---------------- phase 1: code points (budget fractions are cumulative)
     phase = {}
     for k, enc in enumerate(["utf-8", *wide_encs, *NARROW_ENCODINGS]):
@@ -1575,6 +1658,9 @@ def replay(ctx, wit):
     warnings.filterwarnings("ignore", category=UnicodeWarning)
     api = Api()
     api.probe_lenient()
+    if wit.get("kind") == "subrange":
+        subrange_core(ctx, api)
+        return
     if wit.get("kind") == "long":
         enc = wit["enc"]
         mode = W.mode_of_encoding(enc)
